@@ -3,7 +3,7 @@
 (* (DESIGN.md C02 "TLC decides"): round-trip of representable values, ties-to-even around      *)
 (* 2^53, the overflow threshold, the subnormal boundary, agreement of the cheap forms (FCmp,   *)
 (* FAdd shortcut, RoundingView) with their exact definitions, algebraic identities.            *)
-EXTENDS NumSets, FiniteSets
+EXTENDS NumSets, FiniteSets, SequencesExt
 
 P52 == P(52)
 D(m, e) == Mk(0, m, e)
@@ -36,6 +36,8 @@ ASSUME FromRat(Sub(P(53), One), P(1075)) = Fin(0, P52, -1074)            \* roun
 (* decimal constants *)
 ASSUME FromRat(One, FromInt(10)) = Fin(0, Add(Mul(FromInt(72057594), Pow(FromInt(10), 8)), FromInt(3792794)), -56)
 ASSUME ToDec(Bits(FromRat(One, FromInt(10)))) = "4591870180066957722"       \* 0x3FB999999999999A
+ASSUME ToDec(Bits(FromRat(FromInt(7), FromInt(3)))) = "4612436618365282987"      \* 7/3 = 0x4002AAAAAAAAAAAB (0x...AA would be double rounding)
+ASSUME FromRat(Add(Mul(FromInt(3), Add(P(53), One)), One), FromInt(3)) = Fin(0, Add(P52, One), 1)   \* 2^53+1+1/3 is above the tie: 2^53+2
 ASSUME ToDec(Bits(F(1))) = "4607182418800017408"                           \* 0x3FF0000000000000
 ASSUME ToDec(Bits(D(Sub(P(53), One), 971))) = "9218868437227405311"        \* 0x7FEFFFFFFFFFFFFF
 ASSUME ToDec(Bits(FNeg(D(One, -1074)))) = "9223372036854775809"            \* 0x8000000000000001
@@ -57,28 +59,42 @@ ASSUME ISqrt(FromInt(99)) = FromInt(9) /\ ISqrt(FromInt(100)) = FromInt(10) /\ I
 ASSUME BLen(P(64)) = 65 /\ BLen(Sub(P(64), One)) = 64 /\ BLen(One) = 1 /\ BLen(FromInt(8191)) = 13 /\ BLen(FromInt(8192)) = 14
        /\ BLen(P(1024)) = 1025 /\ BLen(BZero) = 0
 
-(* ---- quantified checks over the double alphabet ---- *)
-FS == {AsF(v) : v \in FloatsOf("quick")}
-NZ == {x \in FS : ~IsZero(x.m)}
-(* pair checks run over the doubles of moderate exponent (the cheap forms differ from the exact ones only in how
-   the exponent gap is treated; gaps up to 130 cover both sides of the 64 threshold) *)
-PZ == {x \in NZ : x.e >= -60 /\ x.e <= 70 /\ x.s = 0} \cup {FNeg(F(1)), FNeg(D(One, 53))}
-ASSUME \A x \in FS : Canonical(x)
-ASSUME \A x \in NZ : RoundPos(x.s, x.m, One, x.e) = x                       \* representable values round to themselves
-ASSUME \A x \in NZ : FDivide(x, x) = F(1) /\ FMul(x, F(1)) = x /\ FAdd(x, FNeg(x)) = FZero(0) /\ FSub(x, FZero(0)) = x
-ASSUME \A x \in NZ : x.s = 0 /\ x.e >= -1000 /\ x.e < 400 => FSqrt(FMul(x, x)) = x
-ASSUME \A x, y \in FS : FCmp(x, y) = 0 - FCmp(y, x)
-ASSUME \A x, y \in PZ : FCmp(x, y) = FCmpExact(x, y)
-ASSUME \A x, y \in PZ : FAdd(x, y) = FAddExact(x, y) /\ FAdd(x, y) = FAdd(y, x)
-ASSUME \A x, y \in PZ : FMul(x, y) = FMul(y, x)
-ASSUME \A x \in NZ : x.e >= -130 /\ x.e <= 70 =>
-          LET p == RatOf(x)  q == RoundingView(x)
-          IN RFloor(p) = RFloor(q) /\ RCeiling(p) = RCeiling(q) /\ RTruncate(p) = RTruncate(q) /\ RRound(p) = RRound(q)
+(* ---- quantified checks over the double alphabet, one state per double / per pair (parallel) ---- *)
 ASSUME RRound(<<FromInt(5), Two>>) = FromInt(3) /\ RRound(<<FromInt(-5), Two>>) = FromInt(-3) /\ RRound(<<FromInt(7), Two>>) = FromInt(4)
        /\ RFloor(<<FromInt(-1), Two>>) = FromInt(-1) /\ RCeiling(<<FromInt(-1), Two>>) = BZero /\ RTruncate(<<FromInt(-7), Two>>) = FromInt(-3)
        /\ RRound(<<FromInt(49), FromInt(100)>>) = BZero /\ RCeiling(<<FromInt(7), Two>>) = FromInt(4)
 
-VARIABLE dummy
-Init == dummy = 0
-Next == FALSE /\ dummy' = dummy
+VARIABLES fs, phase, i, j
+vars == <<fs, phase, i, j>>
+
+(* pair checks run over the doubles of moderate exponent (the cheap forms differ from the exact ones only in how
+   the exponent gap is treated; gaps up to 130 cover both sides of the 64 threshold) *)
+InPZ(x) == (~IsZero(x.m) /\ x.e >= -60 /\ x.e <= 70 /\ x.s = 0) \/ x = FNeg(F(1)) \/ x = FNeg(D(One, 53))
+
+(* one cheap initial state; the per-double and per-pair checks are invariants of successor states (parallel) *)
+Init == /\ fs = SetToSeq({AsF(v) : v \in FloatsOf("quick")})
+        /\ phase = "start" /\ i = 0 /\ j = 0
+Next == \/ /\ phase = "start" /\ phase' = "one" /\ i' \in 1..Len(fs) /\ UNCHANGED <<fs, j>>
+        \/ /\ phase = "one" /\ phase' = "pair" /\ UNCHANGED <<fs, i>>
+           /\ InPZ(fs[i]) /\ j' \in {n \in 1..Len(fs) : InPZ(fs[n])}
+
+One1 ==
+  phase = "one" =>
+    LET x == fs[i] IN
+    /\ Canonical(x)
+    /\ \A y \in {fs[n] : n \in 1..Len(fs)} : FCmp(x, y) = 0 - FCmp(y, x)
+    /\ (~IsZero(x.m) =>
+          /\ RoundPos(x.s, x.m, One, x.e) = x                       \* representable values round to themselves
+          /\ FDivide(x, x) = F(1) /\ FMul(x, F(1)) = x /\ FAdd(x, FNeg(x)) = FZero(0) /\ FSub(x, FZero(0)) = x
+          /\ (x.s = 0 /\ x.e >= -1000 /\ x.e < 400 => FSqrt(FMul(x, x)) = x)
+          /\ (x.e >= -130 /\ x.e <= 70 =>
+                LET p == RatOf(x)  q == RoundingView(x)
+                IN RFloor(p) = RFloor(q) /\ RCeiling(p) = RCeiling(q) /\ RTruncate(p) = RTruncate(q) /\ RRound(p) = RRound(q)))
+
+Pair2 ==
+  phase = "pair" =>
+    LET x == fs[i]  y == fs[j] IN
+    /\ FCmp(x, y) = FCmpExact(x, y)
+    /\ FAdd(x, y) = FAddExact(x, y) /\ FAdd(x, y) = FAdd(y, x)
+    /\ FMul(x, y) = FMul(y, x)
 =============================================================================
